@@ -2003,6 +2003,10 @@ class Workflow(Trellis):
         # Check overlap before the recycle short-circuit below,
         # so it applies uniformly to a fresh definition and a re-definition.
         step_label = Step.adjust_label(command, workdir)
+        if isinstance(creator, Step) and creator.label == step_label:
+            # An attached step is caught by `_raise_if_step_exists` below,
+            # but a step that was detached while it runs would be recycled as its own creator.
+            raise GraphError(f"Step ({step_label}) cannot define itself.")
         self._raise_if_glob_match(step_label, out_paths + vol_paths)
 
         # If a compatible detached step is found, fully recycle it, instead of creating a new one.
